@@ -85,4 +85,66 @@ func init() {
 			}
 			return fmt.Sprintf("%s:%d", items[0].Event.File, items[0].Event.Line), v, 2
 		})
+
+	// Cache populations: P distinct call sites log once each (the 112 generated sites, then fillers), then
+	// every one of them logs again, in both modes; every one of the 2P events must carry its own statement.
+	// A cache of call sites that is bounded, evicts or recycles entries must keep that true whatever its
+	// capacity up to the largest population here.
+	type popCase struct {
+		Sites int  `json:"distinct_sites"`
+		Fast  bool `json:"fast"`
+	}
+	allSites := func() []func() (string, int) {
+		var r []func() (string, int)
+		for _, s := range c11Sites {
+			r = append(r, s.run)
+		}
+		return append(r, c11Fillers...)
+	}
+	definePart("C11", "c11/cache-populations", "qt", "P distinct call sites log once each, then each again (P = 1..1612 on a ladder), default and fast mode",
+		func(tier string, yield func(popCase)) {
+			for _, p := range []int{1, 2, 3, 5, 9, 17, 33, 65, 112, 129, 255, 256, 257, 513, 1025, 1612} {
+				for _, fast := range []bool{false, true} {
+					yield(popCase{p, fast})
+				}
+			}
+		},
+		func(c popCase) (string, []Violation, int) {
+			sites := allSites()[:c.Sites]
+			confReset()
+			log.VerifClearFrameCache()
+			key := fmt.Sprintf("sites=%d fast=%v", c.Sites, c.Fast)
+			conf := map[string]string{"appender.r0.type": "Rec", "logger.root.type": "Logger", "logger.root.appenderRef.ref": "r0", "logger.root.level": "TRACE",
+				"enableCaller": "true", "fastCaller": fmt.Sprint(c.Fast)}
+			if err, pn := safeRefresh(conf); err != nil || pn != nil {
+				return "refresh-failed", []Violation{{Clause: "valid-config-rejected", Key: key, Detail: fmt.Sprintf("err=%v panic=%v", err, pn)}}, 1
+			}
+			type loc struct {
+				f string
+				l int
+			}
+			var want []loc
+			for pass := 0; pass < 2; pass++ {
+				for _, run := range sites {
+					f, l := run()
+					want = append(want, loc{f, l})
+				}
+			}
+			log.Destroy()
+			items := recStore["r0"]
+			if len(items) != len(want) {
+				return "count", []Violation{{Clause: "site-did-not-log", Key: key, Detail: fmt.Sprintf("%d events recorded, want %d", len(items), len(want))}}, len(want)
+			}
+			var v []Violation
+			for i, it := range items {
+				if it.Event.File != want[i].f || it.Event.Line != want[i].l {
+					v = append(v, Violation{Clause: "wrong-location", Key: fmt.Sprintf("cache-populations fast=%v", c.Fast),
+						Detail: fmt.Sprintf("%d distinct sites, pass %d, site %d: event says %s:%d, the calling statement is at %s:%d", c.Sites, i/len(sites)+1, i%len(sites), it.Event.File, it.Event.Line, want[i].f, want[i].l)})
+					if len(v) >= 3 {
+						break
+					}
+				}
+			}
+			return fmt.Sprintf("%d", len(items)), v, len(want)
+		})
 }
